@@ -226,6 +226,18 @@ func (w *world) gen1(a int, delayed bool) []*genTx {
 	one := func(g *genTx) []*genTx { return []*genTx{g} }
 	// Benign chains keep the signer set still while upgrades signed under it are pooled (and the other
 	// way round); hostile chains do not care.
+	if !delayed && r.Chance(0.05) {
+		// a call into a system (WASM) contract; most inputs name no method of it and revert, after burning
+		// an amount of gas that depends on the code actually run
+		t := upgradable[r.Intn(2)]
+		in := []string{"GetDecimals|{}", "getPledge|{}", "deposit|{}", "getRight|{\"0\":\"0x01\"}", "nope|{}", "init|{}"}[r.Intn(6)]
+		n := w.takeNonce(a)
+		tx, err := chainkit.NewCall(from, n, t.addr, bi(0), 5000000, []byte(in))
+		if err != nil {
+			panic(err)
+		}
+		return one(&genTx{tx: tx, kind: "call/system-" + t.name, acct: a, nonce: n})
+	}
 	if !delayed && r.Chance(0.035) && w.senders() >= 3 && w.mstPending == 0 && (w.hostile || w.cutPending == 0) {
 		return one(w.genMultiSign())
 	}
@@ -552,22 +564,21 @@ func (w *world) genUpgrade(foreign bool) *genTx {
 		return nil
 	}
 	a := w.signers[0]
-	target := upgradable[r.Intn(len(upgradable)-1)] // not the foundation contract ...
+	// Real blocks upgrade the system contracts the workload does not depend on (not the fee contract);
+	// never-committed variant blocks prefer the two the workload calls (pledge, committee) and the fee
+	// contract, so that code left behind by an uncommitted upgrade would show in the next execution.
+	target := upgradable[r.Intn(3)]
+	if foreign {
+		target = upgradable[[]int{0, 0, 1, 1, 3}[r.Intn(5)]]
+	}
 	code := target.code
 	label := "cut/" + target.name + "/same-code"
 	if foreign || r.Chance(0.3) {
-		other := upgradable[r.Intn(len(upgradable)-1)]
+		other := upgradable[r.Intn(len(upgradable))]
 		if other.name != target.name {
 			code = other.code
 			label = "cut/" + target.name + "/other-code"
 		}
-	}
-	if foreign && r.Chance(0.7) {
-		// ... except in never-committed variant blocks: the fee contract runs in every block, so code left
-		// behind by an uncommitted upgrade shows immediately
-		target = upgradable[3]
-		code = cc.PledgeCodes
-		label = "cut/foundation/other-code"
 	}
 	var nonce uint64
 	if foreign {
